@@ -677,7 +677,29 @@ def r17_12(chk):
     chk.floor("R17.12", 1, "one loader")
 
 
+TABLE_AGGREGATES = ("subset", "to_rich_dict", "num_matches", "get_records_matching", "get_features_matching", "count_distinct", "biotype_counts", "_update_db_from_other_db", "make_indexes")
+
+
+def r17_13(chk):
+    chk.rule("R17.13", "operations over a db cover all of its tables: in the methods that aggregate over self.table_names (subset, to_rich_dict, the matching queries, counts, update) the table loop has no `return` / `break` in its body -- leaving the loop because one table had nothing to contribute drops the records of the tables not yet visited (subset of a Gff db lost its user-added records when the gff table matched nothing)")
+    m = chk.repo.module(DB)
+    ci = m.cls("SqliteAnnotationDbMixin")
+    n = 0
+    for name in TABLE_AGGREGATES:
+        fn = ci.methods.get(name)
+        if not isinstance(fn, ast.FunctionDef):
+            continue
+        loops = [lp for lp in walk_no_nested(fn) if isinstance(lp, ast.For) and "table_names" in norm(lp.iter)]
+        if not loops:
+            continue
+        n += 1
+        bad = [x for lp in loops for b in lp.body for x in ast.walk(b) if isinstance(x, (ast.Return, ast.Break)) and not any(isinstance(inner, (ast.For, ast.While)) and inner is not lp and any(y is x for y in ast.walk(inner)) and isinstance(x, ast.Break) for inner in ast.walk(lp))]
+        chk.decide(not bad, "R17.13", key(m, f"SqliteAnnotationDbMixin.{name}", "every table visited"), m.loc(bad[0] if bad else loops[0]), "no early exit from the table loop", f"`{norm(bad[0]) if bad else ''}` (line {bad[0].lineno if bad else 0}) leaves the loop over the tables: the tables after this one are never consulted, their matching records are missing from the result")
+    chk.floor("R17.13", 6, "aggregate methods with a table loop")
+
+
 def run(chk):
+    r17_13(chk)
     r17_12(chk)
     r17_11(chk)
     r17_10(chk)
